@@ -1,17 +1,7 @@
 //! sdmmc-mc: bounded-exhaustive model checking of embedded-sdmmc against the
 //! 19 given properties. Usage: sdmmc-mc <Cxx> <quick|thorough> | --replay <file> | selftest
 
-mod engine;
-mod medium;
-mod mkfs;
-mod names83;
-mod props;
-mod refat;
-mod scen;
-mod selftest;
-mod simdisk;
-mod util;
-mod world;
+use sdmmc_mc::{props, selftest, util};
 
 fn main() {
     util::install_panic_hook();
